@@ -96,4 +96,11 @@ CHECKS.update({
   "note": "CLIENT_HANDSHAKE_START excluded (not reachable by network input). Trusted base: vlib/reftls.py (anchored by interop with an unmodified aioquic in both roles). Exhaustive within the stated bounds only.",
  },
 })
+CHECKS.update({
+ "C03": {
+  "technique": "exhaustive single-byte alteration sweep over every handshake message of 6 handshake variants (sampled positions in quick), a bad-credential / out-of-configuration matrix driven by an independent TLS 1.3 reference server and key-holding QUIC peers, and Hypothesis-generated configuration pairs on the simulated network compared through both endpoints' NSS key logs",
+  "text": "(1) Two aioquic tls.Context objects, wired as QuicConnection wires them, run a deterministic handshake (full with Ed25519/RSA/P-256/P-384 leaves and each cipher suite, with client certificate, with PSK resumption); for every message, byte position and mask in {0x01,0x80,0xff} the altered message is delivered to its receiver, which must never reach POST_HANDSHAKE. (2) An aioquic client faces the reference TLS server presenting a wrong-name, expired, not-yet-valid, foreign-CA, self-signed, intermediate-missing certificate, a CertificateVerify by another key, a PSK it does not know, a cipher suite / TLS version / ALPN protocol / PSK identity the client did not offer: no completion; matching controls must complete. (3) A key-holding QUIC peer performs an honest TLS handshake with transport parameters that omit or misstate original_destination_connection_id, initial_source_connection_id, retry_source_connection_id or version_information (both roles, v1 and v2, three key types): no HandshakeCompleted. (4) Generated pairs of configurations (leaf type, ordered cipher-suite sub-lists, version lists and original version, ALPN lists, resumption, Retry, max_datagram_size) under generated loss/duplication/reordering: when both endpoints report HandshakeCompleted their key logs hold identical secrets and version, suite, ALPN, resumption and early-data status agree and lie in both configurations; when the lists share no suite, version or ALPN protocol, neither reports completion.",
+  "note": "Completion of compatible pairs is reported (classes), not asserted, except for the lossless controls. Hostile TLS beyond the listed scenarios is C05/C11's subject. Certificate date checks use the pinned clock of the harness only for aioquic's own check; OpenSSL's chain verification uses the real clock, so the expired / not-yet-valid fixtures are decades away from both.",
+ },
+})
 PENDING = {}
